@@ -174,3 +174,49 @@ Theorem C12_generic_QI_total_wf : forall (p : profile) (rt : Q -> Q) (meth : met
   \/ generic_with (kops_of (QI rt) meth) p meth s d (map Some mq) n = Panic PNaN.
 Proof. exact generic_QI_total_wf. Qed.
 Print Assumptions C12_generic_QI_total_wf.
+
+(* ---- non-negative outputs for non-negative inputs (Proofs/NonNeg.v) ----
+   For Ward, centroid and median the formula subtracts; the result stays >= 0
+   because the merged pair is never farther than the cells it is combined with
+   (a global minimum in primitive / generic, reciprocal nearest neighbours in
+   nnchain).  Exact rational arithmetic; `rt` is the square-root post-pass,
+   assumed only to map non-negative to non-negative. *)
+Require Import KV.Proofs.NonNeg KV.Proofs.NonNegInstances KV.Proofs.Criteria KV.Proofs.CriteriaRun KV.Proofs.QInf KV.Proofs.SortProofs.
+From Coq Require Import QArith.
+
+Theorem C12_nonneg_primitive_Q : forall (p : profile) (rt : Q -> Q),
+  (forall q, (0 <= q)%Q -> (0 <= rt q)%Q) ->
+  forall meth s d (m : list Q) n s' d' m',
+  Forall (fun v => (0 <= v)%Q) m ->
+  primitive_with (kops_of (QFr rt) meth) p meth s d m n = Ok (s', d', m') ->
+  Forall (fun v => (0 <= v)%Q) (heights d').
+Proof. exact primitive_nonneg_Q. Qed.
+Print Assumptions C12_nonneg_primitive_Q.
+
+Theorem C12_nonneg_nnchain_Q : forall (p : profile) (rt : Q -> Q),
+  (forall q, (0 <= q)%Q -> (0 <= rt q)%Q) ->
+  forall meth s d (m : list Q) n s' d' m',
+  meth = Single \/ meth = Complete \/ meth = Average \/ meth = Weighted \/ meth = Ward ->
+  Forall (fun v => (0 <= v)%Q) m ->
+  nnchain_with (kops_of (QFr rt) meth) p meth s d m n = Ok (s', d', m') ->
+  Forall (fun v => (0 <= v)%Q) (heights d').
+Proof. exact nnchain_nonneg_Q. Qed.
+Print Assumptions C12_nonneg_nnchain_Q.
+
+Theorem C12_nonneg_generic_QI : forall (p : profile) (rt : Q -> Q),
+  (forall q, (0 <= q)%Q -> (0 <= rt q)%Q) ->
+  forall meth s d (mq : list Q) n s' d' m',
+  Forall (fun v => (0 <= v)%Q) mq ->
+  generic_with (kops_of (QI rt) meth) p meth s d (map Some mq) n = Ok (s', d', m') ->
+  Forall (fun v => exists q, v = Some q /\ (0 <= q)%Q) (heights d').
+Proof. exact generic_nonneg_QI. Qed.
+Print Assumptions C12_nonneg_generic_QI.
+
+(* the update formulas keep non-negativity under the premise the algorithms
+   establish (the merged pair is not farther than the two cells) *)
+Theorem C12_update_nonneg : forall meth (va vb md : Q) (sa sb sx : nat),
+  ((uses_sizes_ab meth = true -> (0 < sa)%nat /\ (0 < sb)%nat) /\ (uses_size_x meth = true -> (0 < sx)%nat)) ->
+  (0 <= va)%Q -> (0 <= vb)%Q -> (0 <= md)%Q -> (md <= va)%Q -> (md <= vb)%Q ->
+  (0 <= upd_of QF meth va vb md sa sb sx)%Q.
+Proof. exact upd_nonneg. Qed.
+Print Assumptions C12_update_nonneg.
